@@ -52,7 +52,9 @@ def make_chooser(spec):
         elif kind == "walk":
             if step <= walk_len:
                 cur_ok = s.cur in runnable
-                if cur_ok and rng.randrange(100) < stick:
+                # right before an access to shared state (gran: attr) a switch is much more likely: that is where atomicity breaks
+                at_shared = bool(s.shared_steps) and s.shared_steps[-1] == step
+                if cur_ok and rng.randrange(100) < (min(stick, 50) if at_shared else stick):
                     k = order.index(s.cur)
                 else:
                     k = rng.randrange(len(order))
